@@ -6,7 +6,7 @@ from hypothesis import strategies as st
 
 from vt import phylo
 from vt.cmp import arr
-from vt.gen.basic import fl
+from vt.gen.basic import fl, logu
 from vt.gen.trees import Topo, all_ins, names_for
 from vt.runner import Res, Sub
 
@@ -78,6 +78,8 @@ def relabel_taxa(c, sigma):
 
     if "lengths" in t:
         t["lengths"] = leafperm(t["lengths"])
+    if "keep" in t:
+        t["keep"] = leafperm(t["keep"])
     if "tip_heights" in t:
         t["tip_heights"] = leafperm(t["tip_heights"])
     if t.get("clock", {}).get("kind") == "simple":
@@ -137,6 +139,8 @@ def swap_children(c, swaps):
         t["lengths"] = fullB[: 2 * n - 3] + list(t["lengths"][2 * n - 3:])
     elif "lengths" in t:
         t["lengths"] = allnodes(t["lengths"])
+    if "keep" in t:
+        t["keep"] = allnodes(t["keep"])
     for k in ("incs", "shifts"):
         if k in t:
             t[k] = internal(t[k])
@@ -327,6 +331,9 @@ def pair_case(draw, force=None, families=("nucleotide", "nucleotide", "general",
                 K = max(A["model"]["mapping"]) + 1
                 A["model"]["rates"] = A["model"]["rates"][:K] + [1.0] * max(0, K - len(A["model"]["rates"]))
     n = phylo.case_topo(A).n
+    if not A["tree"]["kind"].startswith("unrooted") and draw(st.sampled_from([False, False, True])):
+        # a dated newick with its own (not clock-like) branch lengths and keep_branch_lengths
+        A["tree"]["keep"] = [draw(logu(0.3, 3.0)) for _ in range(2 * n - 2)]
     ncol = len(A["cols"])
     kinds = ["taxa_perm", "seq_perm", "swap", "col_perm", "indices", "dup", "states", "trifurcate", "reroot", "reroot"]
     kinds = [k for k in kinds if applicable(A, k)]
